@@ -161,7 +161,9 @@ CLAIMED = {
              'containers transparent to document order; definitions build no token. DOWN TO THE RESOLVED LINK (C07_reference_in_sentence, C07_reference_resolves): a shortcut reference [w] '
              'inside a sentence of trigger-free text (any lengths; w not blank; no "(" right after) tokenizes - scanner, bracket stack, label lookup, every span finder, candidate '
              'tokenizer - to the text before, ONE Link holding w, the text after, its target and title being those of the FIRST definition in document order, wherever it stands, '
-             'whose label has the same normalize_label (case-folded, white space collapsed): the three clauses on the link that comes out, for every modelled configuration. '
+             'whose label has the same normalize_label (case-folded, white space collapsed): the three clauses on the link that comes out, for every modelled configuration; the same for the full form '
+             '[text][label] and the collapsed form [label][] (the label scanner followed over a label of any length); and a reference whose label has NO definition stays literal text, brackets included '
+             '(C07_reference_without_definition). '
              'Model tied by X-doc (tree + Document.footnotes with order). Oracle: '
              'generated documents with definitions at every kind of block boundary and nesting, near-duplicate labels, vs the resolved href/title.',
         note='Trusted: Coq kernel, extraction, parser model (correspondence-checked), translators, placement generator. The scanners of a definition\'s label, destination and title are translated from block_token.py on every run and proved equal to the model\'s (C07_definition_scanners_are_the_source); how match_reference and Footnote.read combine them is the '
